@@ -42,3 +42,5 @@ def run(ctx):
     # not: returns to_bmoc; loop over entries advances by construction (for i in 1..len)
     ctx.not_decided("that the merges compute the set operation for all pairs of trees (tree shapes; no abstract domain in reach); that pack reaches a fixpoint")
     ctx.assume("DESIGN.md appendix A: `and` and `not` of packed inputs are packed (paper argument)")
+    from rules import controls as _controls
+    _controls.feval_controls(ctx)
